@@ -4,6 +4,9 @@
      haspos/pos - the "difference starts at position N" the message prints (pos = 0 when absent)
      has_e/has_a - the message shows the operand verbatim between < and > (logged for printable operands, else true)
      raw     - the message contains an operand byte that is not printable, unescaped (0x01)
+   bits-equal kind (op bitseq): w = operand width in bytes, e/a/m = the 8 bytes of expected, actual and mask (most significant
+   first), has_e/has_a - the message has an "expected <..>" / "but was <..>" field, eb/ab - the symbols of the two fields with
+   blanks removed (0, 1, 2 = any other character).
    Memory safety / termination of the construction is observed by ASan and the deadline on the same executions. *)
 EXTENDS FailMsg, Json, IOUtils
 VARIABLE l
@@ -17,15 +20,22 @@ RowOK == LET v == Verdict(E.op, E.e, E.a, E.enull, E.anull) IN
          /\ (~E.anull /\ AllPrintable(E.a)) => E.has_a
          /\ ~E.raw
          /\ E.safe          \* building the message was survived (no sanitizer report, no signal, no deadline)
+BitsOK == /\ E.safe /\ E.has_e /\ E.has_a
+          /\ E.w \in 1..8 /\ Len(E.e) = 8 /\ Len(E.a) = 8 /\ Len(E.m) = 8
+          /\ ShowsOK(E.eb, E.e, E.m, E.w)
+          /\ ShowsOK(E.ab, E.a, E.m, E.w)
 TInit == l = 1 /\ u = 0
-TNext == /\ \/ Is("streq") \/ Is("nocase") \/ Is("checkeq") \/ Is("bineq")
-         /\ RowOK /\ UNCHANGED u
+TNext == \/ /\ \/ Is("streq") \/ Is("nocase") \/ Is("checkeq") \/ Is("bineq")
+            /\ RowOK /\ UNCHANGED u
+         \/ Is("bitseq") /\ BitsOK /\ UNCHANGED u
 TReset == Is("reset") /\ UNCHANGED u
 TSpec == TInit /\ [][TNext \/ TReset]_<<l, u>>
 Accepted == TLCGet("stats").diameter - 1 = Len(Tr)
 
-PNext == (Is("streq") \/ Is("nocase") \/ Is("checkeq") \/ Is("bineq")) /\ UNCHANGED u
+PNext == (Is("streq") \/ Is("nocase") \/ Is("checkeq") \/ Is("bineq") \/ Is("bitseq")) /\ UNCHANGED u
 PSpec == TInit /\ [][PNext \/ TReset]_<<l, u>>
 Predict == (l > 1 /\ l - 1 >= atoi(IOEnv.FROM_LINE_N) /\ Tr[l - 1].op # "reset") =>
-              PrintT(<<"BEH", ToJson([line |-> l - 1, must |-> Verdict(Tr[l - 1].op, Tr[l - 1].e, Tr[l - 1].a, Tr[l - 1].enull, Tr[l - 1].anull)])>>)
+              PrintT(<<"BEH", ToJson([line |-> l - 1, must |-> IF Tr[l - 1].op = "bitseq"
+                                                                 THEN BitsVerdict(Tr[l - 1].e, Tr[l - 1].a, Tr[l - 1].m, Tr[l - 1].w)
+                                                                 ELSE Verdict(Tr[l - 1].op, Tr[l - 1].e, Tr[l - 1].a, Tr[l - 1].enull, Tr[l - 1].anull)])>>)
 =============================================================================
